@@ -111,13 +111,18 @@ def build_exe(src, out_name, repo=REPO, variant='plain', extra_flags=(), extra_s
     hh = hashlib.sha256()
     for s in srcs:
         hh.update(open(s, 'rb').read())
+        # headers next to the source are part of it (#include "ops_*.h")
+        d = os.path.dirname(os.path.abspath(s))
+        for h in sorted(glob.glob(os.path.join(d, '*.h'))) + sorted(glob.glob(os.path.join(d, '*.inc'))):
+            hh.update(open(h, 'rb').read())
     hh.update(' '.join(extra_flags).encode())
+    hh.update(open(os.path.abspath(__file__), 'rb').read())
     exe = os.path.join(bdir, out_name + '-' + hh.hexdigest()[:10])
     if os.path.exists(exe):
         return exe
     defs = DEFS + (['-DZCHUNK_OPENSSL'] if openssl else [])
     run([CC, '-o', exe] + srcs + cflags + defs + inc_flags(repo, bdir) + list(extra_flags)
-        + [os.path.join(bdir, 'libzckv.a')] + LIBS + ['-lpthread'])
+        + ['-Wl,--wrap=read,--wrap=write,--wrap=lseek,--wrap=lseek64'] + [os.path.join(bdir, 'libzckv.a')] + LIBS + ['-lpthread'])
     return exe
 
 def build_tools(repo=REPO, variant='plain'):
